@@ -201,7 +201,114 @@ def minimise(runner, case, bucket, budget=150):
         except Exception:
             pass
         i -= 1
-    return dict(case, ops=ops)
+    case = dict(case, ops=ops)
+    try:
+        case = minimise_doc(runner, case, bucket)
+        # ops may shrink further on the smaller document
+        ops = list(case["ops"])
+        i = len(ops) - 1
+        while i >= 0 and tries < budget + 60:
+            cand = ops[:i] + ops[i + 1:]
+            tries += 1
+            if bucket in runner.run(dict(case, ops=cand), record=False):
+                ops = cand
+            i -= 1
+        case = dict(case, ops=ops)
+    except Exception:
+        pass
+    return case
+
+
+def minimise_bucket(runner, rep, bucket, budget=150):
+    """minimise the stored case of a bucket and refresh its detail text from a
+    run of the minimal case (runner.rep must be a throw-away Reporter)"""
+    b = rep.buckets[bucket]
+    if not (b["case"] and b["case"].get("ops")):
+        return
+    try:
+        case = minimise(runner, b["case"], bucket, budget)
+        runner.rep.buckets.clear()
+        runner.run(case, record=True)
+        got = runner.rep.buckets.get(bucket)
+        if got:
+            b["case"] = got["case"] or case
+            b["detail"] = f"{got['detail']}  [minimised from: {str(b['detail'])[:200]}]"
+    except Exception:
+        pass
+
+
+def _doc_candidates(doc):
+    """structural simplifications of a document, most aggressive first"""
+    import copy
+
+    def c():
+        return copy.deepcopy(doc)
+    n = len(doc["subnets"])
+    # remove the last subnet (if another sensitive host remains)
+    if n > 1:
+        d = c()
+        last = n
+        keep_sens = {a: v for a, v in d["sensitive_hosts"].items() if a[0] != last}
+        if keep_sens and any(d["topology"][0][s] for s in range(1, n)):
+            d["sensitive_hosts"] = keep_sens
+            d["subnets"] = d["subnets"][:-1]
+            d["topology"] = [r[:-1] for r in d["topology"][:-1]]
+            d["firewall"] = {k: v for k, v in d["firewall"].items() if last not in k}
+            d["host_configurations"] = {a: cfg for a, cfg in d["host_configurations"].items() if a[0] != last}
+            for cfg in d["host_configurations"].values():
+                if "firewall" in cfg:
+                    cfg["firewall"] = {a: v for a, v in cfg["firewall"].items() if a[0] != last}
+            for k in ("_discovery_values",):
+                if k in d:
+                    d[k] = {a: v for a, v in d[k].items() if a[0] != last}
+            d.pop("_bounds", None)
+            yield d
+    for k in ("_discovery_values", "_bounds", "step_limit"):
+        if k in doc:
+            d = c(); del d[k]; yield d
+    for name in list(doc["privilege_escalation"]):
+        d = c(); del d["privilege_escalation"][name]; yield d
+    if len(doc["exploits"]) > 1:
+        for name in list(doc["exploits"]):
+            d = c(); del d["exploits"][name]; yield d
+    for a, cfg in doc["host_configurations"].items():
+        if "firewall" in cfg:
+            d = c(); del d["host_configurations"][a]["firewall"]; yield d
+        if "value" in cfg and a not in doc["sensitive_hosts"]:
+            d = c(); del d["host_configurations"][a]["value"]; yield d
+        if len(cfg["services"]) > 1:
+            d = c(); d["host_configurations"][a]["services"] = cfg["services"][:1]; yield d
+        if cfg["processes"]:
+            d = c(); d["host_configurations"][a]["processes"] = []; yield d
+    if len(doc["sensitive_hosts"]) > 1:
+        for a in list(doc["sensitive_hosts"]):
+            d = c(); del d["sensitive_hosts"][a]; yield d
+    for k, rule in doc["firewall"].items():
+        if set(rule) != set(doc["services"]):
+            d = c(); d["firewall"][k] = list(doc["services"]); yield d
+
+
+def minimise_doc(runner, case, bucket, budget=120):
+    """greedy structural reduction of the document of a failing case (same bucket must keep failing)"""
+    if case.get("source", {}).get("kind") != "doc":
+        return case
+    tries = 0
+    improved = True
+    while improved and tries < budget:
+        improved = False
+        for cand in _doc_candidates(case["source"]["doc"]):
+            tries += 1
+            c2 = dict(case, source=dict(case["source"], doc=cand))
+            try:
+                if bucket in runner.run(c2, record=False):
+                    case = c2
+                    improved = True
+                    break
+            except Exception:
+                pass
+            if tries >= budget:
+                break
+    return case
 
 
 def drive(runner, strategy, n_cases, seed):
